@@ -188,7 +188,7 @@ def grid_worker_pools(exe, cname, vname, chains, findings):
                 why = ("raise", f"evaluate raised {exc}")
             elif want is not None and (codes == []) != want:
                 why = ("verdict", f"chain verdict valid={codes == []} codes={codes} but the documented semantics say valid={want}")
-            elif spec is not None and (codes == []) != spec:
+            elif spec is not None and (codes == []) != spec and not CL.spec_exempt(chain_specs, v):
                 why = ("lean-spec", f"chain verdict valid={codes == []} codes={codes} but Lean Spec.chainAccepts says {spec}")
             if why:
                 fid = classify(findings, chain_specs, v)
@@ -362,7 +362,7 @@ def parse_worker(task):
                 why = ("raise", f"evaluate raised {exc}")
             elif want is not None and (codes == []) != want:
                 why = ("verdict", f"parse(text).evaluate: valid={codes == []} codes={codes} but the documented semantics say valid={want}")
-            elif spec is not None and isinstance(want_specs, list) and (codes == []) != spec:
+            elif spec is not None and isinstance(want_specs, list) and (codes == []) != spec and not CL.spec_exempt(want_specs, v):
                 why = ("lean-spec", f"parse(text).evaluate: valid={codes == []} but Lean Spec.chainAccepts says {spec}")
             if why:
                 cl_chain = want_specs if isinstance(want_specs, list) else [json.loads(json.dumps(spec_of_obj(o))) for o in chain.constraints]
@@ -717,9 +717,6 @@ def tool_worker(task):
                     complaints.append(f"status: no error-severity entry (only {sorted({c for c, _p, _s in ventries})}) but validation_status={status}")
             if complaints:
                 fid = doc_classify(findings, chains, states, extras)
-                if not fid and policy == "WARN" and complaints[0].startswith("status:") and any(f["cls"] == "warn_policy_invalid" for f in findings) \
-                        and warn_policy_invalid(policy, [k for (k, _e) in seq], FIELD_NAMES[:len(cidx)]):
-                    fid = [f["id"] for f in findings if f["cls"] == "warn_policy_invalid"][0]
                 if fid:
                     out["known"][fid] = out["known"].get(fid, 0) + 1
                 elif len(out["fail"]) < MAX_RECORDED:
@@ -731,11 +728,6 @@ def tool_worker(task):
         shutil.rmtree(tmp, ignore_errors=True)
     return out
 
-
-def warn_policy_invalid(policy, extras, known_fields):
-    """F37: UNKNOWN_FIELDS::WARN and the instance has a field the schema does not define (tool level:
-    octave_validate counts the W001 warning as a validation error)."""
-    return policy == "WARN" and any(k not in known_fields for k in extras)
 
 
 # ================================================================================================
@@ -857,19 +849,11 @@ def replay_known(ctx, findings):
     for f in findings:
         w = f["witness"]
         try:
-            if f["cls"] == "range_nan":
-                r = ConstraintChain.parse(w["text"]).evaluate(CL.dec_val(w["value"]), "F")
-                if r.valid:
-                    ctx.known_reproduced.append((f, f"{w['text']} accepts {w['value']}"))
-            elif f["cls"] == "range_int_overflow":
+            if f["cls"] == "range_int_overflow":
                 try:
                     ConstraintChain.parse(w["text"]).evaluate(CL.dec_val(w["value"]), "F")
                 except OverflowError:
                     ctx.known_reproduced.append((f, f"{w['text']} on a {len(w['value']['i'])}-digit int raises OverflowError"))
-            elif f["cls"] == "warn_policy_invalid":
-                out = tool_worker(([(tuple(w["chain_idx"]), w["policy"], w["states"], w["extras"])], [], 9999))
-                if out["fail"] and out["fail"][0]["why"].startswith("status:"):
-                    ctx.known_reproduced.append((f, out["fail"][0]["why"][:160]))
         except Exception as e:
             ctx.notes.append(f"known finding {f['id']}: witness replay raised {type(e).__name__}: {e}")
 
